@@ -18,7 +18,18 @@ _START = frozenset(_LOWER + _LOWER.upper() + "_")
 _CONT = frozenset(_LOWER + _LOWER.upper() + "_0123456789")
 
 
+# Names are ASCII: "a letter or underscore followed by letters, digits and
+# underscores" is read as [A-Za-z_][A-Za-z0-9_]*, the only reading under
+# which the statement holds for the pinned tree ('$\xe9' is a syntax error
+# there).  Until seeded round 4 a non-ASCII letter at a name boundary made
+# the case unjudged; that abstention hid changes which let U+212A, U+017F,
+# U+0130 or U+0131 into names (case-insensitive patterns), so it is gone.
+JUDGE_NON_ASCII = True
+
+
 def _is_foreign_alnum(c):
+    if JUDGE_NON_ASCII:
+        return False
     return ord(c) > 127 and (c.isalnum() or c == "_")
 
 
